@@ -129,6 +129,25 @@ def run(rep, br, proofs, rng, tier):
                 if "call" in str(s) and ("break" in str(s) or "continue" in str(s)):
                     for cal in callees[:2]:
                         progs.append([cal, ("fn", ("loop", s), ("log", "0"))])
+    # try statements inside the catch and finally blocks of try statements (7-10 nodes, beyond the exhaustive bound):
+    # every way of leaving the outer body x every way of leaving the inner body x every shape of the inner statement
+    # x the block it sits in
+    inner_shapes = lambda y: [("try", ("body", y), ("catch", "0"), ("nofin",)), ("try", ("body", y), ("catch", "1"), ("nofin",)),
+                              ("try", ("body", y), ("nocatch",), ("fin", ("log", "0"))), ("try", ("body", y), ("catch", "1", ("log", "0")), ("fin", ("log", "0")))]
+    for X in (("ret", "0"), ("throw", "0"), ("fail",), ("log", "0"), ("break",), ("continue",)):
+        for Y in (("throw", "0"), ("fail",), ("log", "0"), ("ret", "0")):
+            for inner in inner_shapes(Y):
+                outers = [("try", ("body", X), ("nocatch",), ("fin", inner)),
+                          ("try", ("body", X), ("catch", "0", inner), ("nofin",)),
+                          ("try", ("body", X), ("catch", "1", inner), ("fin", ("log", "0"))),
+                          ("try", ("body", X), ("catch", "0", ("log", "0")), ("fin", inner, ("log", "0"))),
+                          ("try", ("body", ("log", "0"), X), ("nocatch",), ("fin", ("log", "0"), inner))]
+                for o in outers:
+                    if X[0] in ("break", "continue"):
+                        progs.append([("fn", ("loop", o, ("log", "0")), ("log", "0"))])
+                    else:
+                        progs.append([("fn", o, ("log", "0"))])
+                        progs.append([("fn", o), ("fn", ("try", ("body", ("call", "0")), ("catch", "1"), ("fin", ("log", "0"))), ("log", "0"))])
     # larger skeletons: seeded sample
     big = stmts(maxn + 1, False, False)
     k = 4000 if tier == "quick" else 60000
@@ -187,7 +206,7 @@ def run(rep, br, proofs, rng, tier):
     nt = sum(1 for c in cases if nontrivial(c["args"], c["impl"]))
     rep.coverage.update({
         "evaluations": len(cases), "distinct_nontrivial": nt,
-        "rule": "all skeleton statements with at most %d nodes (blocks of at most 2 statements) over exit kinds log/break/continue/return/throw/runtime-error at every position, each placed after 0-2 completed try statements, inside loops, and inside called functions; plus a seeded sample of size %d skeletons; distinct by program text; every skeleton with a return inside a try statement is run a second time with value-less return statements (returned values ignored in the comparison); non-trivial = contains a try statement and a non-normal exit" % (maxn, maxn + 1),
+        "rule": "all skeleton statements with at most %d nodes (blocks of at most 2 statements) over exit kinds log/break/continue/return/throw/runtime-error at every position, each placed after 0-2 completed try statements, inside loops, and inside called functions; plus try statements nested in the catch and finally blocks of try statements (every exit of the outer body x every exit of the inner body x inner shape x block) and a seeded sample of size %d skeletons; distinct by program text; every skeleton with a return inside a try statement is run a second time with value-less return statements (returned values ignored in the comparison); non-trivial = contains a try statement and a non-normal exit" % (maxn, maxn + 1),
         "samples": [cases[0]["line"], cases[len(cases)//2]["line"], cases[-1]["line"]],
         "exhaustive_up_to_nodes": maxn, "outcome_distribution": outcomes,
         "value_less_return_runs_compared": bare_compared, "compilers_compared": len(cases), "compilers_differ": len(cdiff),
